@@ -47,7 +47,11 @@ func build(g *Graph) *built {
 				for _, fn := range v.Fields {
 					for _, f := range u.A.T.Fields {
 						if f.Name == fn {
-							*obj = append(*obj, &expr.NamedAttributeExpr{Name: fn, Attribute: &expr.AttributeExpr{Type: b.typ(f.A.T), Description: "view field"}})
+							ft := b.typ(f.A.T)
+							if k, ok := v.Alt[fn]; ok {
+								ft = b.uts[k]
+							}
+							*obj = append(*obj, &expr.NamedAttributeExpr{Name: fn, Attribute: &expr.AttributeExpr{Type: ft, Description: "view field"}})
 						}
 					}
 				}
